@@ -44,7 +44,7 @@ func repeatedProfile(r *rand.Rand) []string {
 
 func (m c18) Run(ctx *core.Ctx) {
 	r := ctx.Rng
-	n := split(tierN(ctx.Tier, 600_000, 40_000_000), ctx.Shard, ctx.NShards)
+	n := split(tierN(ctx.Tier, 1_200_000, 40_000_000), ctx.Shard, ctx.NShards)
 	for i := int64(0); i < n; i++ {
 		w := gen.Web(r)
 		cs := &core.Case{}
